@@ -10,7 +10,7 @@ import tempfile
 import zlib
 
 from harness.common import Ck, coq_bytes, coq_list, coq_str, parse_coq_N_list
-from translate import c13_api, c13_archname, c13_names, c13_nested, c13_nullstr, c13_vpk
+from translate import c13_api, c13_archname, c13_dirprog, c13_names, c13_nested, c13_nullstr, c13_vpk
 
 MANIFEST = dict(
     technique='Rocq proof: whole-history refinement of the executable VPK state machine to a plain map (invariant + induction over the '
@@ -64,7 +64,7 @@ MANIFEST = dict(
 )
 
 IMPORTS = ['Coq.Lists.List', 'Coq.NArith.NArith', 'SV.Fmt.VpkDir', 'SV.SM.Vpk', 'SV.Fmt.VpkArchName', 'SV.SM.VpkCorr', 'SV.Gen.VpkPlace_gen',
-           'SV.Gen.VpkArchName_gen', 'SV.Fmt.VpkNullStr', 'SV.Gen.VpkNullStr_gen', 'SV.SM.VpkNested', 'SV.Gen.VpkNested_gen', 'SV.SM.VpkApi', 'SV.Gen.VpkApi_gen', 'SV.SM.VpkNestedMap', 'SV.SM.VpkPlace', 'SV.Fmt.VpkNameJoin', 'SV.Gen.VpkNames_gen']
+           'SV.Gen.VpkArchName_gen', 'SV.Fmt.VpkNullStr', 'SV.Gen.VpkNullStr_gen', 'SV.SM.VpkNested', 'SV.Gen.VpkNested_gen', 'SV.SM.VpkApi', 'SV.Gen.VpkApi_gen', 'SV.SM.VpkNestedMap', 'SV.SM.VpkPlace', 'SV.Fmt.VpkNameJoin', 'SV.Gen.VpkNames_gen', 'SV.Fmt.VpkDirProg', 'SV.Fmt.VpkDirRead', 'SV.Gen.VpkDirProg_gen', 'SV.SM.VpkPlaceTable']
 PRE = 'Import ListNotations. Open Scope N_scope.\n'
 
 R_OK, R_RO, R_EXISTS, R_MISSING, R_BADNAME, R_BADIDX, R_BADDIR, R_EXC = 0, 1, 2, 3, 4, 5, 6, 9
@@ -377,8 +377,51 @@ class _Boom(Exception):
     pass
 
 
+class ImplTimeout(BaseException):
+    """A call into srctools.vpk did not return within the deadline (a fault that makes a loop spin). Derived from BaseException so that
+    the `except Exception` clauses that classify the implementation's own errors do not swallow it; turned into a failing input."""
+
+
+IMPL_DEADLINE_S = 60        # one history normally takes milliseconds (the largest, 300 000-byte files, well under a second)
+
+
+class impl_deadline:
+    """`with impl_deadline():` raises ImplTimeout in the main thread when the block runs longer than IMPL_DEADLINE_S (SIGALRM)."""
+
+    def __init__(self, seconds: int = IMPL_DEADLINE_S):
+        self.seconds = seconds
+
+    def __enter__(self):
+        import signal
+        import threading
+        self.active = threading.current_thread() is threading.main_thread() and hasattr(signal, 'SIGALRM')
+        if self.active:
+            def on_alarm(signum, frame):
+                raise ImplTimeout(f'no answer from srctools.vpk within {self.seconds}s')
+            import time
+            self.t0 = time.monotonic()
+            self.old = signal.signal(signal.SIGALRM, on_alarm)
+            self.outer = signal.alarm(self.seconds)       # seconds left on an enclosing deadline (0 = none)
+        return self
+
+    def __exit__(self, *exc):
+        if self.active:
+            import signal
+            import time
+            signal.alarm(0)
+            signal.signal(signal.SIGALRM, self.old)
+            if self.outer:
+                signal.alarm(max(1, self.outer - int(time.monotonic() - self.t0)))
+        return False
+
+
 def run_impl(case: dict, want_files: bool = False) -> dict:
-    """Run a history on the real implementation in a fresh directory."""
+    """Run a history on the real implementation in a fresh directory (under a deadline: ImplTimeout)."""
+    with impl_deadline():
+        return _run_impl(case, want_files)
+
+
+def _run_impl(case: dict, want_files: bool = False) -> dict:
     from srctools.vpk import VPK
     cfg = case['cfg']
     d = tempfile.mkdtemp(prefix='c13_', dir=os.environ.get('VERIF_SCRATCH', '/var/tmp'))
@@ -550,6 +593,8 @@ def check_case(case: dict) -> tuple[str, str, int] | None:
     exp = run_spec(case)
     try:
         got = run_impl(case)
+    except ImplTimeout as e:
+        return ('implementation-hangs', f'the history does not finish: {e}', -1)
     except Exception as e:      # noqa
         return (f'harness-exception:{type(e).__name__}', str(e)[:300], -1)
     cfg = case['cfg']
@@ -918,6 +963,9 @@ def corr_machine(ck: Ck) -> None:
                 ck.hist('machine_api_ops', o[0] + ((':normal' if o[1] else ':exception') if o[0] == 'exit' else ''))
         try:
             got = run_impl(case)
+        except ImplTimeout as e:
+            ck.violation('implementation-hangs', f'the history does not finish: {e}', {'case': case, 'how': 'checks.c13.check_case(case)'})
+            continue
         except Exception as e:      # noqa
             ck.notes.append(f'corr_machine: implementation run failed: {e!r}')
             continue
@@ -977,6 +1025,9 @@ def corr_decode(ck: Ck) -> None:
                            for o in case['ops']]
             try:
                 got = run_impl(case)
+            except ImplTimeout as e:
+                ck.violation('implementation-hangs', f'the history does not finish: {e}', {'case': case, 'how': 'checks.c13.check_case(case)'})
+                continue
             except Exception:      # noqa
                 continue
             raw = got['disk']
@@ -1005,31 +1056,35 @@ def corr_decode(ck: Ck) -> None:
                 with open(p, 'wb') as f:
                     f.write(v)
                 try:
-                    vp = VPK(p, mode='r')
-                    ents = {(i.dir, i._filename, i.ext): (i.crc, dg(i.start_data), i.arch_index, i.offset, i.arch_len) for i in vp}
-                    if kind == 'v1':
-                        v1_ents = (ents, vp.footer_data)
-                    elif kind == 'v2' and v1_ents is not None and (v1_ents != (ents, vp.footer_data) or vp.version != 2):
-                        # oracle, independent of the model: the version-2 copy must list the same entries and trailing data
-                        ck.violation('v2-entries-differ', f'a version-2 copy of a directory written by write_dirfile loads {len(ents)} entries / '
-                                     f'{len(vp.footer_data)} footer bytes (version {vp.version}); the version-1 file has {len(v1_ents[0])} / {len(v1_ents[1])}',
-                                     {'v2_file_hex': v.hex()[:6000], 'how': 'write the bytes to x_dir.vpk, open with VPK(mode="r"), compare with the same file with version 1 and without bytes 12..28'})
-                    el = coq_list(f'({c_key(k)}, ({c}, {c_dg(pd)}, {c_idx(x)}, {o}, {l}))' for k, (c, pd, x, o, l) in sorted(ents.items()))
-                    exp = f'(Some ({vp.version}, {el if el != "[]" else "@nil ent_t"}, {c_dg(dg(vp.footer_data))}))'
-                    if ents:
-                        ck.seen(('dec', v))
-                    if kind == 'v2':
-                        # a version-2 archive is read-only in effect: write_dirfile must refuse before touching the file
-                        va = VPK(p, mode='a')
-                        try:
-                            va.write_dirfile()
-                            refused = False
-                        except NotImplementedError:
-                            refused = True
-                        with open(p, 'rb') as f:
-                            if not refused or f.read() != v:
-                                ck.violation('v2-write_dirfile-damages-file', 'write_dirfile on a version-2 archive did not refuse, or changed the file',
-                                             {'file_hex': v.hex()[:4000]})
+                  with impl_deadline():
+                      vp = VPK(p, mode='r')
+                      ents = {(i.dir, i._filename, i.ext): (i.crc, dg(i.start_data), i.arch_index, i.offset, i.arch_len) for i in vp}
+                      if kind == 'v1':
+                          v1_ents = (ents, vp.footer_data)
+                      elif kind == 'v2' and v1_ents is not None and (v1_ents != (ents, vp.footer_data) or vp.version != 2):
+                          # oracle, independent of the model: the version-2 copy must list the same entries and trailing data
+                          ck.violation('v2-entries-differ', f'a version-2 copy of a directory written by write_dirfile loads {len(ents)} entries / '
+                                       f'{len(vp.footer_data)} footer bytes (version {vp.version}); the version-1 file has {len(v1_ents[0])} / {len(v1_ents[1])}',
+                                       {'v2_file_hex': v.hex()[:6000], 'how': 'write the bytes to x_dir.vpk, open with VPK(mode="r"), compare with the same file with version 1 and without bytes 12..28'})
+                      el = coq_list(f'({c_key(k)}, ({c}, {c_dg(pd)}, {c_idx(x)}, {o}, {l}))' for k, (c, pd, x, o, l) in sorted(ents.items()))
+                      exp = f'(Some ({vp.version}, {el if el != "[]" else "@nil ent_t"}, {c_dg(dg(vp.footer_data))}))'
+                      if ents:
+                          ck.seen(('dec', v))
+                      if kind == 'v2':
+                          # a version-2 archive is read-only in effect: write_dirfile must refuse before touching the file
+                          va = VPK(p, mode='a')
+                          try:
+                              va.write_dirfile()
+                              refused = False
+                          except NotImplementedError:
+                              refused = True
+                          with open(p, 'rb') as f:
+                              if not refused or f.read() != v:
+                                  ck.violation('v2-write_dirfile-damages-file', 'write_dirfile on a version-2 archive did not refuse, or changed the file',
+                                               {'file_hex': v.hex()[:4000]})
+                except ImplTimeout as e:
+                    ck.violation('implementation-hangs:load_dirfile', f'opening a {kind} directory file does not finish: {e}', {'file_hex': v.hex()[:6000], 'how': 'write the bytes to x_dir.vpk, VPK(path, mode="r")'})
+                    continue
                 except Exception as e:      # noqa
                     exp = 'None'
                     nbad_files += 1
@@ -1044,7 +1099,7 @@ def corr_decode(ck: Ck) -> None:
     bad = []
     for lo in range(0, len(lits), 200):
         part = lits[lo:lo + 200]
-        vals = ck.coq_eval(IMPORTS, [f'bad_idx (fun c : bytes * option (N * list ent_t * (N * N)) => check_decode_v g_dcfg (fst c) (snd c)) 0 {coq_list(part)}'],
+        vals = ck.coq_eval(IMPORTS, [f'bad_idx (fun c : bytes * option (N * list ent_t * (N * N)) => check_decode_p g_dcfg g_rprog (fst c) (snd c)) 0 {coq_list(part)}'],
                            name='vpkdec', preamble=PRE)
         if vals is None:
             ck.obligation('correspondence:decode', False, 'model could not be evaluated')
@@ -1053,7 +1108,7 @@ def corr_decode(ck: Ck) -> None:
         bad += [lo + i for i in parse_coq_N_list(vals[0])]
     ck.obligation('correspondence:decode', not bad,
                   f'{len(lits)} directory files written by the implementation, damaged copies and version-2 copies ({nbad_files} it rejects), decoded '
-                  f'by the model decoder Fmt/VpkDirV2.v dec_file_v (version, entries, footer) vs load_dirfile: {len(bad)} disagreements')
+                  f'by Fmt/VpkDirRead.v rexec over the program compiled from load_dirfile (version, entries, footer) vs load_dirfile: {len(bad)} disagreements')
     if bad:
         ck.tie_broken.append('correspondence VPK directory decode (Fmt/VpkDir.v dec_file vs VPK.load_dirfile)')
         ck.extra['decode_disagreement'] = {'literal': lits[bad[0]][:3000]}
@@ -1154,11 +1209,15 @@ def corr_nullstr(ck: Ck) -> None:
     for b in streams[:n + len(fixed)]:
         f = io.BytesIO(b)
         try:
-            got = [x.encode('ascii', 'surrogateescape') for x in vpkmod.iter_nullstr(f)]
+            with impl_deadline():
+                got = [x.encode('ascii', 'surrogateescape') for x in vpkmod.iter_nullstr(f)]
             ex = f'(Some ({coq_list(c_dg(dg(x)) for x in got) if got else "@nil (N * N)"}, {len(b) - f.tell()}))'
             ck.hist('nullstr_stream', 'section read' + (' (a string of >= 255 bytes)' if any(len(x) >= 255 for x in got) else ''))
             if got:
                 ck.seen(('ns', b))
+        except ImplTimeout as e:
+            ck.violation('implementation-hangs:iter_nullstr', f'iter_nullstr does not finish on a {len(b)}-byte stream: {e}', {'stream_hex': b.hex()[:4000], 'how': 'list(srctools.vpk.iter_nullstr(io.BytesIO(bytes.fromhex(stream_hex))))'})
+            continue
         except Exception:      # noqa
             ex = 'None'
             ck.hist('nullstr_stream', 'generator raises')
@@ -1392,6 +1451,19 @@ def corr_archnames(ck: Ck) -> list[str]:
 
 
 # ------------------------------------------------------------------------------------------------ main
+STAGE_DEADLINE_S = 900      # backstop for a whole stage (each takes 2-15 s in the quick tier, up to ~4 min in the thorough tier)
+
+
+def staged(ck: Ck, fn) -> None:
+    """Run one stage; a call into the implementation that does not return (per-call deadline inside the stage, or this backstop) ends
+    as a violation with what was running, never as a hung check."""
+    try:
+        with impl_deadline(STAGE_DEADLINE_S):
+            fn(ck)
+    except ImplTimeout as e:
+        ck.violation('implementation-hangs', f'stage {fn.__name__}: {e}', {'stage': fn.__name__, 'how': f'checks.c13.{fn.__name__} with a deadline'})
+
+
 def run(ck: Ck) -> None:
     ck.rule = ('histories: random sequences of new/add/write/del/write_dirfile/reopen(r,w,a)/with-block exit (normal, exception)/load_dirfile() on '
                'the same object over a pool of names that collide, 5% with a tree string (folder, nested folder path, stem, extension) of a boundary '
@@ -1424,10 +1496,11 @@ def run(ck: Ck) -> None:
     ok_t = ck.translate('VpkNested_gen', c13_nested.translate) and ok_t
     ok_t = ck.translate('VpkApi_gen', c13_api.translate) and ok_t
     ok_t = ck.translate('VpkNames_gen', c13_names.translate) and ok_t
-    built = ok_t and ck.build(['Props/C13.vo', 'SM/VpkCorr.vo', 'Gen/VpkPlace_gen.vo', 'Gen/VpkArchName_gen.vo', 'Gen/VpkNullStr_gen.vo', 'Gen/VpkNested_gen.vo', 'Gen/VpkApi_gen.vo', 'Gen/VpkNames_gen.vo'])
+    ok_t = ck.translate('VpkDirProg_gen', c13_dirprog.translate) and ok_t
+    built = ok_t and ck.build(['Props/C13.vo', 'SM/VpkCorr.vo', 'Gen/VpkPlace_gen.vo', 'Gen/VpkArchName_gen.vo', 'Gen/VpkNullStr_gen.vo', 'Gen/VpkNested_gen.vo', 'Gen/VpkApi_gen.vo', 'Gen/VpkNames_gen.vo', 'Gen/VpkDirProg_gen.vo'])
     if built:
         ck.theorems('Props/C13.v')
-        ck.instance_obligations(IMPORTS + ['SV.Fmt.VpkNameSplit', 'SV.Props.C13'], {
+        ck.instance_obligations(IMPORTS + ['SV.Fmt.VpkNameSplit', 'SV.SM.VpkProperty', 'SV.Props.C13'], {
             'format_constants_in_range': 'dcfg_ok g_dcfg',
             'reader_and_writer_use_the_same_dir_sentinel': 'N.eqb g_dir_index_read g_dir_index_write',
             'reader_and_writer_use_the_same_terminator': 'N.eqb g_term_read g_term_write',
@@ -1461,6 +1534,30 @@ def run(ck: Ck) -> None:
             'archive_sites_same_folder_and_index': 'andb g_index_args_ok g_sites_join_folder',
             'archive_appended_at_end_and_read_at_offset': 'g_archive_append_at_end',
             'deprecated_file_prefix_setter_consistent': 'g_prefix_setter_consistent',
+            # the statement structure of write_dirfile / load_dirfile (Gen/VpkDirProg_gen.v): premises of c13_write_dirfile_program_is_encoder /
+            # c13_load_dirfile_program_is_decoder / c13_dirfile_programs_roundtrip; the finer ones point at one site
+            # the hypotheses of c13_property, all at once, for the objects generated from today's source (both kinds of archive)
+            'c13_property_hypotheses_hold_for_todays_source':
+                'andb (c13_hyps g_exit_table (g_vcfg true (Some 1024%N)) g_place_table g_read_table g_ins_ext g_ins_dir g_del_prog g_ncodec g_wprog g_rprog g_ext_split g_parts g_join_table g_ncfg) '
+                '(c13_hyps g_exit_table (g_vcfg false None) g_place_table g_read_table g_ins_ext g_ins_dir g_del_prog g_ncodec g_wprog g_rprog g_ext_split g_parts g_join_table g_ncfg)',
+            'write_dirfile_program_is_the_directory_encoder': 'wprog_ok g_wprog',
+            'write_dirfile_loops_ext_folder_file_sorted': 'andb (w_nest_ok g_wprog) (w_sorted g_wprog)',
+            'write_dirfile_skips_empty_dicts': 'andb (w_ext_skip g_wprog) (w_dir_skip g_wprog)',
+            'write_dirfile_header_mark_then_length_patched_after_footer': 'andb (if list_eq_dec wop_eq_dec (w_before g_wprog) (w_before wprog_pinned) then true else false) '
+                                                                          '(if list_eq_dec wop_eq_dec (w_after g_wprog) (w_after wprog_pinned) then true else false)',
+            'write_dirfile_one_nul_after_each_level': 'andb (if list_eq_dec wop_eq_dec (w_dir_post g_wprog) (w_dir_post wprog_pinned) then true else false) '
+                                                      '(if list_eq_dec wop_eq_dec (w_ext_post g_wprog) (w_ext_post wprog_pinned) then true else false)',
+            'write_dirfile_string_then_entry_then_preload': 'andb (if list_eq_dec wop_eq_dec (w_file_body g_wprog) (w_file_body wprog_pinned) then true else false) '
+                                                            '(andb (if list_eq_dec wop_eq_dec (w_ext_pre g_wprog) (w_ext_pre wprog_pinned) then true else false) '
+                                                            '(if list_eq_dec wop_eq_dec (w_dir_pre g_wprog) (w_dir_pre wprog_pinned) then true else false))',
+            'load_dirfile_program_is_the_directory_decoder': 'rprog_ok g_rprog',
+            'load_dirfile_header_checks_v2_skip_then_mark': 'if list_eq_dec rop_eq_dec (r_before g_rprog) (r_before rprog_pinned) then true else false',
+            'load_dirfile_loops_ext_folder_file_stored_in_that_nesting': 'andb (r_nest_ok g_rprog) (andb (if list_eq_dec rop_eq_dec (app (r_ext_pre g_rprog) (app (r_dir_pre g_rprog) (r_dir_post g_rprog))) nil then true else false) true)',
+            'load_dirfile_entry_sentinels_terminator_preload': 'if list_eq_dec fop_eq_dec (r_file_body g_rprog) (r_file_body rprog_pinned) then true else false',
+            'load_dirfile_early_exit_after_extension_then_footer': 'andb (if list_eq_dec rop_eq_dec (r_ext_post g_rprog) (r_ext_post rprog_pinned) then true else false) '
+                                                                   '(if list_eq_dec rop_eq_dec (r_after g_rprog) (r_after rprog_pinned) then true else false)',
+            # the decision tables have a meaning of their own (SM/VpkPlaceTable.v): premises of c13_write_table_is_write_info / c13_read_table_is_read_info
+            # are write_placement_table_matches_model / read_and_verify_take_the_bytes_from_where_write_put_them above
             # NUL-terminated strings of the tree (Gen/VpkNullStr_gen.v): premises of c13_nullstr_*
             'nullstr_reader_reads_strings_of_any_length': 'reader_ok (nc_reader g_ncodec)',
             'nullstr_writer_terminates_with_one_nul': 'bytes_eqb (nc_term g_ncodec) (0%N :: nil)',
@@ -1498,12 +1595,12 @@ def run(ck: Ck) -> None:
         import time as _t
         t0 = _t.time()
         for fn in (corr_archnames, corr_nullstr, corr_nested, corr_machine, corr_decode, corr_names):
-            fn(ck)
+            staged(ck, fn)
             if os.environ.get('C13_TIMING'):
                 print(f'  [timing] {fn.__name__}: {_t.time() - t0:.1f}s'); t0 = _t.time()
     t0 = __import__('time').time()
-    search(ck)
-    folder_stream(ck)
+    staged(ck, search)
+    staged(ck, folder_stream)
     if os.environ.get('C13_TIMING'):
         print(f'  [timing] search: {__import__("time").time() - t0:.1f}s')
     keys = {v['key'] for v in ck.violations}
